@@ -41,6 +41,7 @@ struct SentPkt {
     int idx = 0; int conn = -1; uint64_t seq = 0; ns_t t = 0;
     mq::Packet pkt; std::string raw;
     size_t off_begin = 0, off_end = 0;
+    size_t emitted_len = 0;           // bytes that actually went out (less than raw.size() for a cut emission)
     uint64_t delivered_seq = 0; ns_t delivered_t = 0;   // last byte consumed by a client read
     bool hostile = false;             // deliberately malformed / illegitimate
     int reply_to = -1;                // RecvPkt idx
@@ -75,6 +76,7 @@ struct BConn {
     uint64_t close_seq = 0;
     int unanswered = 0;               // requests received whose ack is withheld/pending
     bool withheld_any = false;
+    bool pubrel_blocked = false;      // a PUBREL was withheld: later ones stay behind it [MQTT-4.6.0-4]
 };
 
 struct OutMsg {                        // a message the broker sends to the client
